@@ -466,13 +466,17 @@ func (s *Session) Run() {
 	}
 	s.changed = make(chan struct{})
 	s.tr = [2]map[uint32]*strack{{}, {}}
-	s.pipeA, s.pipeR = vh.Pipe(1<<20, "10.9.8.7:40000", "10.1.1.1:443")
+	pcap := 1 << 20
+	if s.Plan.PipeCap > 0 {
+		pcap = s.Plan.PipeCap
+	}
+	s.pipeA, s.pipeR = vh.Pipe(pcap, "10.9.8.7:40000", "10.1.1.1:443")
 	cg := &segState{rng: rand.New(rand.NewSource(s.Plan.SegSeed)), class: s.Plan.SegC, first: s.Plan.PrefaceCut, preface: true}
 	s.pipeR.Seg = cg.next
 	s.ep[0], s.ep[1] = newEndpoint(s, 0), newEndpoint(s, 1)
 	s.closing = make(chan bool)
 	s.proxyDone = make(chan error, 1)
-	cfg := &h2.Config{RootCAs: u.Pool}
+	cfg := &h2.Config{RootCAs: u.Pool, EnableDebugLogs: s.Case.Debug}
 	go func() {
 		s.proxyDone <- cfg.Proxy(s.closing, s.pipeR, &url.URL{Scheme: "https", Host: u.Addr})
 	}()
